@@ -470,6 +470,18 @@ impl<T: BitWrite> PackedWrite for T {
         value: i64,
     ) -> Result<(), Error> {
         let bytes = value.to_be_bytes();
+        let max_bit_len = (bytes.len() * BYTE_LEN) as u64;
+        if bit_len == 0 || bit_len > max_bit_len {
+            return Err(ErrorKind::BitLenNotInRange(bit_len, 1_u64, max_bit_len).into());
+        }
+        if bit_len < max_bit_len {
+            // the value must be representable in a two's complement of the given length
+            let min = -(1_i64 << (bit_len - 1));
+            let max = (1_i64 << (bit_len - 1)) - 1;
+            if value < min || value > max {
+                return Err(ErrorKind::ValueNotInRange(value, min, max).into());
+            }
+        }
         let bits_offset = (bytes.len() * BYTE_LEN) - bit_len as usize;
         self.write_bits_with_offset(&bytes[..], bits_offset)
     }
